@@ -26,6 +26,7 @@ import (
 	enginefactory "github.com/projecteru2/core/engine/factory"
 	"github.com/projecteru2/core/lock"
 	"github.com/projecteru2/core/log"
+	resourcetypes "github.com/projecteru2/core/resource/types"
 	"github.com/projecteru2/core/store"
 	"github.com/projecteru2/core/store/etcdv3"
 	redisstore "github.com/projecteru2/core/store/redis"
@@ -70,6 +71,7 @@ type kase struct {
 	Wid       string         `json:"wid,omitempty"`
 	Ignore    bool           `json:"ignore"`
 	Rollback  []string       `json:"rollback"`
+	Deploy    bool           `json:"deploy,omitempty"` // create: nodes carry cpumem resources, the deployment really happens (remap goroutines)
 	SmallPool bool           `json:"small_pool,omitempty"` // Calcium with a pool of 2 workers (pool.Invoke fails when saturated)
 	Fail      int            `json:"fail"` // >= 0: the (Fail+1)-th Lock call of the case fails (injected)
 	Impl      map[string]any `json:"impl"`
@@ -305,6 +307,13 @@ func (e *env) populate(s store.Store, k *kase) error {
 				return err
 			}
 		}
+		if k.Deploy { // through the cluster API so that the resource plugin knows the node
+			if _, err := e.big.AddNode(ctx, &types.AddNodeOptions{Nodename: n.N, Endpoint: "mock://" + n.N, Podname: n.Pod, Labels: n.Labels, Test: true,
+				Resources: resourcetypes.Resources{"cpumem": {"cpu": 4, "memory": int64(4 << 30)}}}); err != nil {
+				return err
+			}
+			continue
+		}
 		nd, err := s.AddNode(ctx, &types.AddNodeOptions{Nodename: n.N, Endpoint: "mock://" + n.N, Podname: n.Pod, Labels: n.Labels, Test: n.Test})
 		if err != nil {
 			return err
@@ -409,6 +418,11 @@ func (e *env) drive(ctx context.Context, k *kase) {
 	nop := func(context.Context, map[string]*types.Node) error { return nil }
 	deploy := &types.DeployOptions{Name: "app", Podname: "p", Image: "img", Count: 1, DeployStrategy: "AUTO",
 		Entrypoint: &types.Entrypoint{Name: "e"}, NodeFilter: k.NF.real()}
+	if k.Deploy {
+		deploy.IgnorePull = true
+		deploy.Count = 2
+		deploy.Resources = resourcetypes.Resources{"cpumem": {"memory-request": int64(1 << 20), "cpu-request": 0.5}}
+	}
 	switch k.Kind {
 	case "create":
 		if ch, err := c.CreateWorkload(ctx, deploy); err == nil {
@@ -604,7 +618,7 @@ func genLocks(r *hx.Rng, k *kase) {
 	k.Op, k.Backend, k.Fail = "locks", "etcd", -1
 	k.IDs, k.Rollback = []string{}, []string{}
 	k.NF = nfilter{Inc: []string{}, Exc: []string{}, Labels: map[string]string{}}
-	kinds := []string{"replace", "replace", "create", "capacity", "removepod", "node", "node", "remove", "remove", "realloc", "each", "each", "remap", "nodespod", "nodespod", "nodesop", "workloads", "workloads"}
+	kinds := []string{"replace", "replace", "create", "create", "capacity", "removepod", "node", "node", "remove", "remove", "realloc", "each", "each", "remap", "nodespod", "nodespod", "nodesop", "workloads", "workloads"}
 	k.Kind = kinds[r.Intn(len(kinds))]
 	anyNode := k.Nodes[r.Intn(len(k.Nodes))].N
 	if r.Chance(6) {
@@ -613,6 +627,13 @@ func genLocks(r *hx.Rng, k *kase) {
 	switch k.Kind {
 	case "create", "capacity", "nodespod", "nodesop":
 		k.NF = genFilter(r, k)
+		if k.Kind == "create" && r.Chance(50) { // a create that really deploys: remap goroutines afterwards
+			k.Deploy = true
+			for i := range k.Nodes {
+				k.Nodes[i].Up, k.Nodes[i].Test, k.Nodes[i].Bypass = true, true, false
+			}
+			k.Workloads = []wl{}
+		}
 	case "removepod":
 		k.Pod = k.Nodes[r.Intn(len(k.Nodes))].Pod
 	case "node":
@@ -651,7 +672,7 @@ func genLocks(r *hx.Rng, k *kase) {
 	}
 	switch k.Kind { // a failing acquisition at every position (single-episode kinds only)
 	case "create", "capacity", "removepod", "node", "nodespod", "nodesop", "workloads":
-		if r.Chance(22) {
+		if r.Chance(22) && !k.Deploy {
 			k.Fail = r.Intn(4)
 		}
 	}
